@@ -237,6 +237,9 @@ func c15Kill(kind string, rng *Rng, nrounds int) {
 		}
 		emit(s.prop, "REOPEN")
 		probe()
+		// whatever the kill left of the in-flight write, an acknowledged delete of that key brings the
+		// store and every candidate model state back together before the next round
+		s.Delete(b, k)
 		nontrivial(fmt.Sprint(kind, "kill", round))
 	}
 	s.end()
